@@ -318,14 +318,14 @@ pub fn rand_update(r: &mut R, t: &Tab, part: i64, nparts: i64) -> Stmt {
     Stmt::Update { tbl: t.def.name.clone(), set, wher: part_pred(r, t, part, nparts), has_where: true }
 }
 
-fn note_insert(t: &mut Tab, s: &Stmt) {
+pub fn note_insert(t: &mut Tab, s: &Stmt) {
     if let Stmt::Insert { rows, cols, .. } = s {
         let pos = cols.iter().position(|c| c.0 == 1).unwrap();
         for row in rows { if let V::Int(i) = row[pos] { if !t.ids.contains(&i) { t.ids.push(i); } } }
     }
 }
 
-fn populate(run: &mut Runner, r: &mut R, t: &mut Tab, n: usize) {
+pub fn populate(run: &mut Runner, r: &mut R, t: &mut Tab, n: usize) {
     let mut left = n;
     while left > 0 && !run.hung {
         let s = rand_insert(r, t, 0, 1, false);
@@ -942,7 +942,7 @@ fn seg_vac(run: &mut Runner, r: &mut R, stats: &mut serde_json::Value) {
     for t in &tabs { run.auto(&Stmt::Select(select_all(t))); }
 }
 
-fn rand_cfg(r: &mut R, small_pages_ok: bool) -> axmosdb::DBConfig {
+pub fn rand_cfg(r: &mut R, small_pages_ok: bool) -> axmosdb::DBConfig {
     let page = if small_pages_ok { *pick(r, &[4096usize, 8192, 16384, 65536]) } else { *pick(r, &[16384usize, 32768, 65536]) };
     crate::eng::cfg(page, *pick(r, &[32usize, 64, 256, 2000, 10000]), *pick(r, &[1usize, 2, 8]), *pick(r, &[3usize, 4, 8]), *pick(r, &[1usize, 2, 3]))
 }
